@@ -149,6 +149,67 @@ pub fn subst_oracle<E: Engine>(_ctx: &RunCtx, spec: &PromSpec, log: &mut CaseLog
         }
     }
     log.extra_evals += 4;
+    // batches in which ANOTHER member's promises could be mistaken for this one's: (a) three members [genuine pair, an honest
+    // two-commitment member whose second promise is the one the proof was made under, substituted pair]; (b) beyond the chunk
+    // size: 256 copies of the genuine pair followed by the substituted pair. Both must be refused unless the vectors are equal.
+    if cfg.m == 1 {
+        use tari_bulletproofs_plus::{commitment_opening::CommitmentOpening, range_parameters::RangeParameters, range_witness::RangeWitness};
+        let mut g = crate::gen::chacha(spec.base.bulk ^ 0xc07);
+        let pv = [0u64, old.unwrap_or(0)];
+        let pr: Vec<Vec<curve25519_dalek::scalar::Scalar>> = (0..2).map(|_| (0..cfg.ext).map(|_| crate::gen::rand_scalar(&mut g)).collect()).collect();
+        let params2 = RangeParameters::init(cfg.bits, 2, t.params.pc_gens().clone()).map_err(|e| format!("{:?}", e))?;
+        let pcs: Vec<E::P> = pv
+            .iter()
+            .zip(pr.iter())
+            .map(|(v, r)| E::commit(params2.pc_gens(), &curve25519_dalek::scalar::Scalar::from(*v), r).map_err(|e| format!("{:?}", e)))
+            .collect::<Result<_, _>>()?;
+        let pst = RangeStatement::init(params2, pcs, vec![None, old], None).map_err(|e| format!("{:?}", e))?;
+        let pw = RangeWitness::init(pv.iter().zip(pr.iter()).map(|(v, r)| CommitmentOpening::new(*v, r.clone())).collect()).map_err(|e| format!("{:?}", e))?;
+        let pproof = guarded(|| E::prove(&mut t.transcript(), &pst, &pw, &mut crate::eng::RngSpec::ChaCha(spec.base.bulk).make()))?
+            .map_err(|e| format!("prover refused the honest two-commitment neighbour: {:?}", e))?;
+        for act in [VerifyAction::VerifyOnly, VerifyAction::RecoverAndVerify] {
+            let r = guarded(|| {
+                E::verify(
+                    &mut [t.transcript(), t.transcript(), t.transcript()],
+                    &[genuine.clone(), pst.clone(), st.clone()],
+                    &[proof.clone(), pproof.clone(), proof.clone()],
+                    act,
+                )
+            })?;
+            if equal != r.is_ok() {
+                return Err(format!(
+                    "batch [genuine pair, honest member with promises [None, {:?}], same proof under substituted promise {:?}] is {} in {} (made under {:?}; value-wise equal: {})",
+                    old,
+                    new,
+                    if r.is_ok() { "ACCEPTED" } else { "rejected" },
+                    action_name(act),
+                    old,
+                    equal
+                ));
+            }
+        }
+        log.extra_evals += 2;
+        let every = if E::IS_F { 16 } else { 128 };
+        if cfg.bits <= 8 && spec.base.bulk % every == 0 {
+            let k = 257usize;
+            let mut ts: Vec<_> = (0..k).map(|_| t.transcript()).collect();
+            let mut sts: Vec<_> = (0..k - 1).map(|_| genuine.clone()).collect();
+            sts.push(st.clone());
+            let proofs: Vec<_> = (0..k).map(|_| proof.clone()).collect();
+            let r = guarded(|| E::verify(&mut ts, &sts, &proofs, VerifyAction::VerifyOnly))?;
+            if equal != r.is_ok() {
+                return Err(format!(
+                    "batch of 256 copies of the genuine pair followed by the same proof under substituted promise {:?} (made under {:?}) is {} (value-wise equal: {})",
+                    new,
+                    old,
+                    if r.is_ok() { "ACCEPTED" } else { "rejected" },
+                    equal
+                ));
+            }
+            log.label("subst:behind-256-copies");
+            log.extra_evals += 1;
+        }
+    }
     let kind = format!("{:?}", spec.subst).split('(').next().unwrap().to_string();
     log.label(format!("engine={}", E::NAME));
     log.label(format!("subst:{}", kind));
@@ -312,7 +373,7 @@ pub fn def() -> PropertyDef {
         level: "exploration",
         rule: "Three generators. (1) substituted promise: an honest proof made under promise vector p (classes None, 0, v, v-1, v/3, uniform) is \
                verified under a vector differing in one generated position j by {0, None, p+-1, v, v+1, 2^bits-1, 2^bits, u64::MAX, uniform}, in \
-               VerifyOnly and RecoverAndVerify; oracle: Ok <=> value-wise equal (None == 0), and any promise >= 2^bits is refused; the same verdict is required of the two-member batches [genuine pair, same proof under the substituted vector] in both orders and both modes. (2) prover \
+               VerifyOnly and RecoverAndVerify; oracle: Ok <=> value-wise equal (None == 0), and any promise >= 2^bits is refused; the same verdict is required of the two-member batches [genuine pair, same proof under the substituted vector] in both orders and both modes, of the three-member batch with an honest two-commitment member in between whose second promise is the original one, and (small bit lengths, a sixteenth of the cases) of the batch of 256 copies of the genuine pair followed by the substituted pair. (2) prover \
                boundary at each position of an aggregate with all other positions valid: promise == value proves and verifies, promise == value+1 \
                is refused, the reference prover's proof of value - promise = -1 is rejected, and a promise of 2^bits is refused even when the reference prover supplies a proof for which the relation holds (value' = 2^bits + small) and the other promises of the aggregate fit. (3) engine F garbage proofs with a nonzero promise \
                at EVERY position: the h-coordinate (and every other coordinate) of the verifier's final equation equals weight x the reference \
